@@ -1020,3 +1020,84 @@ package mq
 
 //@ func (vbint).width
 //@   ensures result == specVbWidth(uint(v))
+
+// ---------------------------------------------------------------- WriteTo (C10)
+// one Write of a buffer of exactly the frame size; the result is that call's (n, err)
+
+//@ func (*Connect).WriteTo
+//@   ensures $writes == old($writes) + 1                                                    #C10
+//@   ensures $wlen == self.fill(_LEN, 0)                                                    #C10
+//@   ensures result0 == int64($wn) && result1 == werr()                                     #C10
+
+//@ func (*ConnAck).WriteTo
+//@   ensures $writes == old($writes) + 1                                                    #C10
+//@   ensures $wlen == self.fill(_LEN, 0)                                                    #C10
+//@   ensures result0 == int64($wn) && result1 == werr()                                     #C10
+
+//@ func (*Publish).WriteTo
+//@   ensures $writes == old($writes) + 1                                                    #C10
+//@   ensures $wlen == self.fill(_LEN, 0)                                                    #C10
+//@   ensures result0 == int64($wn) && result1 == werr()                                     #C10
+
+//@ func (*PubAck).WriteTo
+//@   ensures $writes == old($writes) + 1                                                    #C10
+//@   ensures $wlen == self.fill(_LEN, 0)                                                    #C10
+//@   ensures result0 == int64($wn) && result1 == werr()                                     #C10
+
+//@ func (*PubRec).WriteTo
+//@   ensures $writes == old($writes) + 1                                                    #C10
+//@   ensures $wlen == self.fill(_LEN, 0)                                                    #C10
+//@   ensures result0 == int64($wn) && result1 == werr()                                     #C10
+
+//@ func (*PubRel).WriteTo
+//@   ensures $writes == old($writes) + 1                                                    #C10
+//@   ensures $wlen == self.fill(_LEN, 0)                                                    #C10
+//@   ensures result0 == int64($wn) && result1 == werr()                                     #C10
+
+//@ func (*PubComp).WriteTo
+//@   ensures $writes == old($writes) + 1                                                    #C10
+//@   ensures $wlen == self.fill(_LEN, 0)                                                    #C10
+//@   ensures result0 == int64($wn) && result1 == werr()                                     #C10
+
+//@ func (*Subscribe).WriteTo
+//@   ensures $writes == old($writes) + 1                                                    #C10
+//@   ensures $wlen == self.fill(_LEN, 0)                                                    #C10
+//@   ensures result0 == int64($wn) && result1 == werr()                                     #C10
+
+//@ func (*SubAck).WriteTo
+//@   ensures $writes == old($writes) + 1                                                    #C10
+//@   ensures $wlen == self.fill(_LEN, 0)                                                    #C10
+//@   ensures result0 == int64($wn) && result1 == werr()                                     #C10
+
+//@ func (*Unsubscribe).WriteTo
+//@   ensures $writes == old($writes) + 1                                                    #C10
+//@   ensures $wlen == self.fill(_LEN, 0)                                                    #C10
+//@   ensures result0 == int64($wn) && result1 == werr()                                     #C10
+
+//@ func (*UnsubAck).WriteTo
+//@   ensures $writes == old($writes) + 1                                                    #C10
+//@   ensures $wlen == self.fill(_LEN, 0)                                                    #C10
+//@   ensures result0 == int64($wn) && result1 == werr()                                     #C10
+
+//@ func (*PingReq).WriteTo
+//@   ensures $writes == old($writes) + 1                                                    #C10
+//@   ensures $wlen == self.fill(_LEN, 0)                                                    #C10
+//@   ensures result0 == int64($wn) && result1 == werr()                                     #C10
+
+//@ func (*PingResp).WriteTo
+//@   ensures $writes == old($writes) + 1                                                    #C10
+//@   ensures $wlen == self.fill(_LEN, 0)                                                    #C10
+//@   ensures result0 == int64($wn) && result1 == werr()                                     #C10
+
+//@ func (*Disconnect).WriteTo
+//@   ensures $writes == old($writes) + 1                                                    #C10
+//@   ensures $wlen == self.fill(_LEN, 0)                                                    #C10
+//@   ensures result0 == int64($wn) && result1 == werr()                                     #C10
+
+//@ func (*Auth).WriteTo
+//@   ensures $writes == old($writes) + 1                                                    #C10
+//@   ensures $wlen == self.fill(_LEN, 0)                                                    #C10
+//@   ensures result0 == int64($wn) && result1 == werr()                                     #C10
+
+//@ func (*Undefined).WriteTo
+//@   ensures $writes == old($writes) && result1 != nil && result0 == 0                      #C10
